@@ -1013,6 +1013,35 @@ func (m *machine) announce(t *rapid.T, pi int, ents []entSpec) {
 	m.settle(t, want, "entity-events", "initial-reply", "the initial reply")
 }
 
+// reconnect: the connection of a peer goes and the device connects again; what the stack knows
+// about it starts from scratch with the new initial reply.
+func (m *machine) reconnect(t *rapid.T) {
+	m.budget(t)
+	pi := rapid.IntRange(0, len(m.w.Peers)-1).Draw(t, "peer")
+	old := m.w.Peers[pi]
+	m.w.Local.RemoveRemoteDeviceConnection(old.Ski)
+	m.w.Sync()
+	old.Gone = true
+	m.w.ReconnectOnly(old)
+	m.w.Sync()
+	m.w.Events.Drain()
+	m.trees[pi] = tree{}
+	m.books[pi] = nil
+	m.logf("peer%d: connection removed, the device connects again", pi+1)
+	m.dkey = append(m.dkey, fmt.Sprintf("p%d reconnect", pi+1))
+	world.Label("op/reconnect")
+	var ents []entSpec
+	for j, addr := range addrDomain {
+		if rapid.IntRange(0, 2).Draw(t, fmt.Sprintf("re.initial%d", j)) == 2 {
+			ents = append(ents, drawEntity(t, addr, fmt.Sprintf("re.i%d", j)))
+		}
+	}
+	m.announce(t, pi, ents)
+	for i := range m.w.Peers {
+		m.checkTree(t, i, "tree-mismatch", "reconnect", "the reconnect of a peer")
+	}
+}
+
 func maxMessages() int {
 	def := 8
 	if world.Thorough() {
@@ -1071,6 +1100,7 @@ func TestRemoteTree(t *testing.T) {
 			"peerBind":      m.peerBind,
 			"localClient":   m.localClient,
 			"idle":          m.idle,
+			"reconnect":     m.reconnect,
 		})
 
 		// no further event: the handlers run asynchronously, so look once more after a grace period
